@@ -44,6 +44,8 @@ BridgeEv ==
     /\ IsEvent("bridge") /\ started
     /\ E.line = LineFrom(E.line, 0)                         \* exactly one line was taken from the port
     /\ IF E.res = "panic" THEN TRUE                         \* a crash inside the bus is C12's finding: no verdict here
+       ELSE IF E.write_fault THEN E.res = "comm"             \* the port refused the write: a communication error
+                                  /\ (E.decodable => E.forwarded = <<E.direct_msg>>)
        ELSE IF ~E.decodable
        THEN /\ E.res = "comm"                               \* undecodable: communication error ...
             /\ E.forwarded = <<>> /\ E.wrote = <<>>         \* ... without touching the bus
